@@ -418,7 +418,7 @@ func staticIncludes(items []tItem, line int, env map[string]any) []staticInclude
 
 // ---- the oracles -----------------------------------------------------------------------------
 
-func resKind(res string) string {
+func inclResKind(res string) string {
 	f := strings.Fields(res)
 	if len(f) >= 2 && f[0] == "err" {
 		return f[1]
@@ -541,7 +541,7 @@ func (c *inclCase) check(r *Run, caseLine string) string {
 	}
 	want := c.renderOn(c.engine(d), d, spell(defaultDelims, repl), env2)
 	wantOut, wantOK := okOutput(want)
-	if wantOK != realOK || (wantOK && wantOut != realOut) || (!wantOK && resKind(want) != resKind(real)) {
+	if wantOK != realOK || (wantOK && wantOut != realOut) || (!wantOK && inclResKind(want) != inclResKind(real)) {
 		r.Violate("C14", "include-vs-inlined-output", caseLine, fmt.Sprintf("%q at %s: real %s ; with the files' rendered output inlined %s", c.Src, c.MainPath, resultSummary(real), resultSummary(want)))
 	}
 	return real
@@ -830,14 +830,14 @@ func inclStream(r *Run) {
 			cl := c.inclLine()
 			res := c.check(r, cl)
 			r.Count("oracle-only(cache)")
-			r.Count("res=" + resKind(res))
+			r.Count("res=" + inclResKind(res))
 			r.Nontrivial(cl)
 			continue
 		}
 		cl := c.renderLine()
 		res := c.check(r, cl)
 		r.Count("emitted")
-		r.Count("res=" + resKind(res))
+		r.Count("res=" + inclResKind(res))
 		if strings.HasPrefix(res, "ok ") {
 			r.Nontrivial(cl)
 		}
